@@ -1,6 +1,6 @@
 /-
-  C06: concrete inputs of the excluded classes evaluated on the model (each is replayed on the real code by
-  corpus/C06/open_*.json).
+  C06: concrete inputs of the excluded class evaluated on the model (replayed on the real code by
+  corpus/C06/open_*.json), and what `supportedB` says per depth.
 -/
 import DrxProofs.Bitd24Top
 namespace Drx.Bitd
@@ -10,112 +10,9 @@ open Drx Drx.Bitd.Spec
 theorem w_f34 : bitd2bmp (callOf ⟨1, 1, 0, 0, .d16 [[(1, 2)]]⟩ (serialise ⟨1, 1, 0, 0, .d16 [[(1, 2)]]⟩ 0 0 .raw)) = .error .notImpl := by
   decide +kernel
 
-/-- F34: a 32-bit stream of exactly 2·w·h bytes (two runs of four) is taken for raw data -/
-theorem w_f34b : bitd2bmp (callOf ⟨2, 1, 0, 0, .d32 [[(7, 7, 7, 7), (7, 7, 7, 7)]]⟩
-    (serialise ⟨2, 1, 0, 0, .d32 [[(7, 7, 7, 7), (7, 7, 7, 7)]]⟩ 0 0 (.packed [[.run 4 7, .run 4 7]]))) = .error .notImpl := by
+/-- F34: a raw 32-bit image raises NotImplementedError -/
+theorem w_f34_32 : bitd2bmp (callOf ⟨1, 1, 0, 0, .d32 [[(9, 1, 2, 3)]]⟩ (serialise ⟨1, 1, 0, 0, .d32 [[(9, 1, 2, 3)]]⟩ 0 0 .raw)) = .error .notImpl := by
   decide +kernel
-
-/-! F90: a literal that spans both byte planes of a one-pixel-wide 16-bit image -/
-
-def img90 : Img := ⟨1, 2, 0, 0, .d16 [[(1, 2)], [(3, 4)]]⟩
-def enc90 : Enc := .packed [[.lit [1, 2]], [.lit [3, 4]]]
-
-theorem w_f90_loop : loop16 1 2 [1, 1, 2, 1, 3, 4] [0, 0, 0, 0] 0 1 = .ok [1, 2, 0, 0] := by
-  rw [loop16]
-  simp [jump16, paintLit16, setAtI, setAt]
-  rw [loop16]
-  simp
-
-theorem w_f90_c : compressed16 [1, 1, 2, 1, 3, 4] 1 2 = .ok [2, 1, 0, 0, 0, 0, 0, 0] := by
-  unfold compressed16
-  have : loop16 1 (2 * 1) [1, 1, 2, 1, 3, 4] (zeros (2 * 1 * 2)) 0 (((2 : Nat) : Int) - 1) = .ok [1, 2, 0, 0] := w_f90_loop
-  rw [this]
-  decide
-
-theorem w_f90 : bitd2bmp (callOf img90 (serialise img90 0 0 enc90)) = .ok (hdr16 1 2 ++ [2, 1, 0, 0, 0, 0, 0, 0]) := by
-  rw [bitd2bmp_16 _ rfl]
-  rw [decode16_eval { callOf img90 (serialise img90 0 0 enc90) with palette := paletteName (callOf img90 (serialise img90 0 0 enc90)) } 0 rfl
-    (by decide) (by decide) (by decide) [2, 1, 0, 0, 0, 0, 0, 0] []
-    (by
-      show (if (((6 : Nat) : Int)) = (((1 : Nat) : Int) - ((0 : Nat) : Int)) * 2 * (((2 : Nat) : Int) - ((0 : Nat) : Int)) then (.error .notImpl : R Bytes)
-        else compressed16 [1, 1, 2, 1, 3, 4] 1 2) = _
-      rw [if_neg (by decide)]
-      exact w_f90_c)]
-  rfl
-
-theorem w_f90_read : readBmp (hdr16 1 2 ++ [2, 1, 0, 0, 0, 0, 0, 0]) ≠ some (canvas img90) := by
-  decide +kernel
-
-/-! F91: a 16-bit image with a left offset -/
-
-def img91 : Img := ⟨2, 1, 1, 0, .d16 [[(1, 2)]]⟩
-def enc91 : Enc := .packed [[.lit [1], .lit [2]]]
-
-theorem w_f91_loop : loop16 2 4 [0, 1, 0, 2] [0, 0, 0, 0] 0 0 = .ok [1, 2, 0, 0] := by
-  rw [loop16]
-  simp [jump16, paintLit16, setAtI, setAt]
-  rw [loop16]
-  simp [jump16, paintLit16, setAtI, setAt]
-  rw [loop16]
-  simp
-
-theorem w_f91_c : compressed16 [0, 1, 0, 2] 2 1 = .ok [0, 1, 0, 2] := by
-  unfold compressed16
-  have : loop16 2 (2 * 2) [0, 1, 0, 2] (zeros (2 * 2 * 1)) 0 (((1 : Nat) : Int) - 1) = .ok [1, 2, 0, 0] := w_f91_loop
-  rw [this]
-  decide
-
-theorem w_f91 : bitd2bmp (callOf img91 (serialise img91 0 0 enc91)) = .ok (hdr16 2 1 ++ [0, 1, 0, 2]) := by
-  rw [bitd2bmp_16 _ rfl]
-  rw [decode16_eval { callOf img91 (serialise img91 0 0 enc91) with palette := paletteName (callOf img91 (serialise img91 0 0 enc91)) } 0 rfl
-    (by decide) (by decide) (by decide) [0, 1, 0, 2] []
-    (by
-      show (if (((4 : Nat) : Int)) = (((2 : Nat) : Int) - ((1 : Nat) : Int)) * 2 * (((1 : Nat) : Int) - ((0 : Nat) : Int)) then (.error .notImpl : R Bytes)
-        else compressed16 [0, 1, 0, 2] 2 1) = _
-      rw [if_neg (by decide)]
-      exact w_f91_c)]
-  rfl
-
-theorem w_f91_read : readBmp (hdr16 2 1 ++ [0, 1, 0, 2]) ≠ some (canvas img91) := by
-  decide +kernel
-
-/-! F92: a 32-bit image with a left offset -/
-
-def img92 : Img := ⟨2, 1, 1, 0, .d32 [[(9, 1, 2, 3)]]⟩
-def enc92 : Enc := .packed [[.lit [9, 1, 2, 3]]]
-
-theorem w_f92_loop : loop24 8 [3, 9, 1, 2, 3] [0, 0, 0, 0, 0, 0, 0, 0] 0 0 = .ok [9, 1, 2, 3, 0, 0, 0, 0] := by
-  rw [loop24]
-  simp [paintLit24, put24, setAtI, setAt]
-  rw [loop24]
-  simp
-
-theorem w_f92_c : compressed24 [3, 9, 1, 2, 3] 2 1 = .ok [0, 0, 2, 0, 0, 3, 0, 0] := by
-  unfold compressed24
-  have : loop24 (4 * 2) [3, 9, 1, 2, 3] (zeros (4 * 2 * 1)) 0 (((1 : Nat) : Int) - 1) = .ok [9, 1, 2, 3, 0, 0, 0, 0] := w_f92_loop
-  rw [this]
-  decide
-
-theorem w_f92 : bitd2bmp (callOf img92 (serialise img92 0 0 enc92)) = .ok (hdr24 2 1 ++ [0, 0, 2, 0, 0, 3, 0, 0]) := by
-  rw [bitd2bmp_32 _ rfl]
-  rw [decode24_eval { callOf img92 (serialise img92 0 0 enc92) with palette := paletteName (callOf img92 (serialise img92 0 0 enc92)) } 0 rfl
-    (by decide) (by decide) (by decide) [0, 0, 2, 0, 0, 3, 0, 0] []
-    (by
-      show (if (((5 : Nat) : Int)) = (((2 : Nat) : Int) - ((1 : Nat) : Int)) * 2 * (((1 : Nat) : Int) - ((0 : Nat) : Int)) then (.error .notImpl : R Bytes)
-        else compressed24 [3, 9, 1, 2, 3] 2 1) = _
-      rw [if_neg (by decide)]
-      exact w_f92_c)]
-  rfl
-
-theorem w_f92_read : readBmp (hdr24 2 1 ++ [0, 0, 2, 0, 0, 3, 0, 0]) ≠ some (canvas img92) := by
-  decide +kernel
-
-end Drx.Bitd
-
-namespace Drx.Bitd
-open Drx Drx.Bitd.Spec
-
-/-! ### what `supportedB` says per depth -/
 
 theorem supportedB_d16_raw (W H ox oy : Nat) (rows : List (List (UInt8 × UInt8))) :
     supportedB ⟨W, H, ox, oy, .d16 rows⟩ .raw = false := by
@@ -124,23 +21,5 @@ theorem supportedB_d16_raw (W H ox oy : Nat) (rows : List (List (UInt8 × UInt8)
 theorem supportedB_d32_raw (W H ox oy : Nat) (rows : List (List Px32)) :
     supportedB ⟨W, H, ox, oy, .d32 rows⟩ .raw = false := by
   unfold supportedB; exact Bool.and_false _
-
-theorem supportedB_d16_packed (W H ox oy : Nat) (rows : List (List (UInt8 × UInt8))) (opsRows : List (List Op))
-    (h : supportedB ⟨W, H, ox, oy, .d16 rows⟩ (.packed opsRows) = true) :
-    ox = 0 ∧ oy = 0 ∧ ∀ ops ∈ opsRows, straddles (W - ox) 0 ops = false := by
-  unfold supportedB at h
-  rw [Bool.and_eq_true] at h
-  have h2 := h.2
-  simp only [Img.w, Bool.and_eq_true, beq_iff_eq, List.all_eq_true, Bool.not_eq_true'] at h2
-  exact ⟨h2.1.1, h2.1.2, h2.2⟩
-
-theorem supportedB_d32_packed (W H ox oy : Nat) (rows : List (List Px32)) (opsRows : List (List Op))
-    (h : supportedB ⟨W, H, ox, oy, .d32 rows⟩ (.packed opsRows) = true) :
-    ox = 0 ∧ oy = 0 ∧ (packed opsRows.flatten).length ≠ 2 * (W - ox) * (H - oy) := by
-  unfold supportedB at h
-  rw [Bool.and_eq_true] at h
-  have h2 := h.2
-  simp only [Img.w, Img.h, Bool.and_eq_true, beq_iff_eq, bne_iff_ne, ne_eq] at h2
-  exact ⟨h2.1.1, h2.1.2, h2.2⟩
 
 end Drx.Bitd
